@@ -977,6 +977,33 @@ def sp_ufr(ex, args, kwargs, node):
 
 
 _UFARR = {}
+F_MEAN = z3.Function("mean_1d", z3.ArraySort(V.INT, V.REAL), V.INT, V.REAL)
+
+
+@model("numpy.mean")
+def np_mean(ex, args, kwargs, node):
+    """np.mean(a) of a 1-D array: an uninterpreted function of the array value and its length (A-REAL; the arithmetic mean itself
+    is numpy's)"""
+    a = args[0]
+    if isinstance(a, Arr) and a.rank == 2 and kwargs.get("axis") in (1, -1) and len(args) == 1 and len(kwargs) == 1 \
+            and isinstance(E._conc(a.shape[1]), int) and 1 <= E._conc(a.shape[1]) <= 8 and a.kind == "real":
+        # mean over a short, fixed number of columns: (a[:, 0] + ... + a[:, w-1]) / w  (real arithmetic)
+        w = E._conc(a.shape[1])
+        trusted(ex, "numpy.mean(axis=1) over a fixed small number of columns: their sum divided by the count (A-REAL)")
+        r = Arr.from_lambda([a.shape[0]], "real", lambda i: sum((a.sel(i, j) for j in range(1, w)), a.sel(i, 0)) / w, name="rowmean")
+        r.ghost.update(owner="fresh", corder=True)
+        return r
+    if len(args) > 1 or kwargs or not isinstance(a, Arr) or a.rank != 1 or a.kind != "real":
+        raise Unsupported("np.mean other than of a 1-D real array")
+    trusted(ex, "numpy.mean(1-D array): a function of the array's values and length")
+    return F_MEAN(a.term, to_z3(a.shape[0], "int"))
+
+
+@spec("mean1")
+def sp_mean1(ex, args, kwargs, node):
+    a = args[0]
+    return F_MEAN(a.term, to_z3(a.shape[0], "int"))
+
 
 
 @spec("ufarr")
